@@ -144,6 +144,10 @@ def run_e1(pid, spec, tier, ws, out, log_dir, known):
 
 
 def emit_evidence(pid, spec, out, wall, ws):
+    global EVID_DIR
+    if os.environ.get("VERIF_REPO", "/repo").rstrip("/") != "/repo":
+        # a development run against a private clone (seeded changes): never touches the evidence of /repo
+        EVID_DIR = os.path.join(VERIF, "logs_last", "evidence-of-private-clone")
     os.makedirs(EVID_DIR, exist_ok=True)
     samples = []
     for h, r in out.harness_results:
